@@ -751,6 +751,11 @@ func (s *Service) ClientClose(client *ClientService) {
 			}
 			s.Listeners = listeners
 
+			// remove the external c2 listeners (and their endpoints) this client registered
+			if s.Teamserver != nil {
+				s.Teamserver.ListenerServiceExc2Remove(client)
+			}
+
 			// close client connection
 			if s.clients[i].Conn != nil {
 				err := s.clients[i].Conn.Close()
